@@ -157,6 +157,7 @@ func (r *Report) Sample(v any) {
 	}
 }
 func (r *Report) H(k string) { r.Hist[k]++ }
+
 // replayIndex >= 0: only the case with this index is of interest (sub-commands that cannot jump to a
 // case regenerate the cases before it and their issues are dropped here)
 var replayIndex = -1
